@@ -21,6 +21,7 @@ CFG = {
             "3-state DFAs / 2-state NFAs exhaustive in thorough and sampled in quick, 3-state NFAs sampled; random: <= 8 states, epsilon moves, empty-target Adds, "
             "contiguous / shifted / sparse ids, accepting start states, transitions into the start state, unreachable and dead states, 1..3 operands; "
             "about a third of the random operands and 300 staged automata per run are built with queries/conversions interleaved between the Adds (Symbols, States, String, Accept, ToDFA/ToNFA, Star/Union or Minimize/Eliminate/Reindex, Isomorphic(clone), Equal/Transitions/CombineDFA), new symbols and states being added afterwards; "
+            "independence probes (alias <op>): after Clone / ToDFA / ToNFA / Star / Union / Concat / Minimize / EliminateDeadStates / ReindexStates / CombineDFA the result is extended (Adds on existing (state,symbol) pairs, a new symbol, a new state) and every operand re-read, then each operand is extended and the result re-read: Accept vector and structure of the other side must not move (api); "
             "shapes: chains of 60..70 states with shuffled sparse ids, a 127-state binary tree (BFS queue crosses its block size), trim DFAs for minimality, "
             "Concat on its sound domain with three operands, Dragon-book fixtures. "
             "A case is non-trivial when some operand has >= 2 states, a transition, and both accepts and rejects a tested word; distinct = distinct (header, op list).",
